@@ -1,5 +1,5 @@
 import sys, threading, struct, socket
-sys.path.insert(0, '/repo')
+sys.path.insert(0, sys.argv[1] if len(sys.argv) > 1 else '/repo')   # tree under test
 import pyipmi.interfaces.rmcp as R
 from pyipmi.session import Session
 
@@ -12,7 +12,8 @@ class Ev(object):
         gate_tick.wait()            # first tick happens when the test says so
         if self._n == 0:
             self._n = 1
-            gate_go.wait()          # ... and the call itself is delayed until close_session is done
+            gate_go.wait(0.5)       # ... and the call itself is delayed until close_session is done (or 0.5 s:
+                                    # with the joining stopper close_session waits for this call instead)
             return False
         return True
     _n = 0
@@ -36,7 +37,7 @@ class Sock(object):
         rs_sa, netfn_lun, _, rq_sa, seq_lun, cmd = msg[0], msg[1], msg[2], msg[3], msg[4], msg[5]
         netfn = (netfn_lun >> 2) + 1
         hdr = bytes([rq_sa, (netfn << 2) | (seq_lun & 3)]); hdr += bytes([(-sum(hdr)) & 0xff])
-        data = {0x01: bytes(12), 0x3c: b''}.get(cmd, b'')
+        data = {0x01: bytes(15), 0x3c: b''}.get(cmd, b'')
         body = bytes([rs_sa, (seq_lun & 0xfc) | (netfn_lun & 3), cmd, 0]) + data
         body += bytes([(-sum(body)) & 0xff])
         m = hdr + body
